@@ -81,6 +81,14 @@ TABLE_WITNESS("short", TabShort, "t");
 TABLE_WITNESS("dotted", TabDotted, "io.github.eieio.Table");
 TABLE_WITNESS("high", TabHigh, "t\xc3\xa9l\xc3\xa9");
 TABLE_WITNESS("len8", TabLen8, "1234567");
+// The name is the whole array handed to the macro: trailing padding and embedded NULs are part of it.
+TABLE_WITNESS("embedded_nul1", TabNul1, "sensors\0v1");
+TABLE_WITNESS("embedded_nul2", TabNul2, "sensors\0v2");
+static_assert(nop::EntryListTraits<TabNul1>::EntryList::Hash != nop::EntryListTraits<TabNul2>::EntryList::Hash, "W:table.embedded_nul_distinct");
+constexpr char kPaddedName[16] = "Telemetry";
+struct TabPadded { nop::Entry<int, 1> a; NOP_TABLE_NS(kPaddedName, TabPadded, a); };
+static_assert(nop::EntryListTraits<TabPadded>::EntryList::Hash == refsip::of(kPaddedName, kTableKey0, kTableKey1), "W:table.padded_array");
+static_assert(nop::EntryListTraits<TabPadded>::EntryList::Hash != refsip::of("Telemetry", kTableKey0, kTableKey1), "W:table.padded_array_all_bytes");
 struct TabZero { nop::Entry<int, 1> a; NOP_TABLE(TabZero, a); };
 static_assert(nop::EntryListTraits<TabZero>::EntryList::Hash == 0, "W:table.zero");
 struct TabFixed { nop::Entry<int, 1> a; NOP_TABLE_HASH(15, TabFixed, a); };
